@@ -290,6 +290,10 @@ def rules(ctx):
             T.add(f, 'lam')
             nsrc += 1
             ctx.inst('R16.1', f, 'source: parameter lam of %s' % f.qual, True, "taint source", nontrivial=False)
+    # the default penalty of the degree reduction is computed from a coefficient of the model, which carries the symbols
+    dl = P.func('PUBO.default_lam')
+    T.add(dl, dl.all_params[-1])
+    ctx.inst('R16.1', dl, 'source: coefficient parameter of %s' % dl.qual, True, "taint source", nontrivial=False)
     T.run()
     seen = set()
     for fn, node, what, ok, why in T.sinks:
@@ -297,6 +301,10 @@ def rules(ctx):
         if k in seen:
             continue
         seen.add(k)
+        if fn is dl and not ok and what.startswith('argument of abs('):
+            # abs of a symbolic coefficient is sympy's Abs(..), which commutes with substitution
+            ctx.inst('R16.1', fn, enclosing_stmt(node), True, "abs() of the coefficient stays symbolic (Abs)", nontrivial=False)
+            continue
         ctx.inst('R16.1', fn, enclosing_stmt(node) if not isinstance(node, ast.stmt) else node, ok,
                  ("allowed use of the weight: %s (%s)" % (what, why)) if ok else
                  "the weight `lam` (possibly a sympy symbol) reaches a %s: the result depends on the symbol's "
